@@ -279,7 +279,7 @@ def publish(w):
             number=properties.NumberVector("NUMBER", elements=dict(
                 n=properties.Number("N", default=1.5), d=properties.Number("D", default=3, format="%d"),
                 s=properties.Number("S", default=-0.25, format="%.3m"), t=properties.Number("T", default=12.999999, format="%.6m"),
-                u=properties.Number("U", default=5.5, format="%.9m"))),
+                u=properties.Number("U", default=5.5, format="%.9m"), m=properties.Number("M", default=1.0, format="%.0f", min=0.5, max=9.5, step=0.25))),
             switch=properties.SwitchVector("SWITCH", rule="OneOfMany", default_on="A", elements=dict(a=properties.Switch("A"), b=properties.Switch("B"))),
             blob=properties.BLOBVector("BLOB", elements=dict(b=properties.BLOB("B"))),
             light=properties.LightVector("LIGHT", elements=dict(l=properties.Light("L"))),
@@ -320,6 +320,10 @@ def publish(w):
     if sorted(m.name for m in defs) != ["BLOB", "LIGHT", "NUMBER", "SWITCH", "TEXT"]:
         probs.append("getProperties defined %r" % sorted(m.name for m in defs))
     for m in defs:
+        if m.name == "NUMBER":
+            meta = [(str(ch.min), str(ch.max), str(ch.step)) for ch in m.children if ch.name == "M"]
+            if meta != [("0.5", "9.5", "0.25")]:
+                probs.append("defNumber M carries min/max/step %r, declared 0.5 / 9.5 / 0.25" % (meta,))
         if m.name == "TEXT" and [ch.name for ch in m.children] != ["A"]:
             probs.append("disabled element listed: %r" % [ch.name for ch in m.children])
     roundtrip_all("getProperties")
